@@ -147,6 +147,11 @@ def run(prog: Program, res: Result, tier: str) -> None:
     ok = bool(got) and all(g.startswith(canon("FilterbankBlock(stats.downsample_2d(self.data, (ffactor, tfactor), filter_method), X)")[:-3]) for g in got)
     (res.ok if ok else res.bad)("R3", bd, bd.node, "block.downsample: axis 0 (channels) by ffactor, axis 1 (time) by tfactor" if ok else
                                 "block.downsample no longer passes (ffactor, tfactor) for (channel, time) axes", construct="block.downsample", key="block.downsample")
+    rff = prog.func(S, "running_filter_fast")
+    v_, why_ = kernelspec.compare(rff, "running_filter_fast")
+    if v_ == "incomparable":
+        raise AnalysisError(f"running_filter_fast cannot be compared with its reference definition: {why_[0]}")
+    (res.ok if v_ == "same" else res.bad)("R2", rff, rff.node, ("; ".join(why_))[:600], construct="running_filter_fast", key="running_filter_fast")
     from ..report import depends as _depends
     _depends(res, "R2", prog, tier, "C07", accept=lambda o: "Filterbank.downsample" in (o.where or "") and o.rule in ("C07.R2", "C07.R4", "C07.R5"),
              why="Filterbank.downsample decimates gulp by gulp: C07's rules for it (gulp a multiple of the time factor, factor roles, what is written) are re-evaluated here")
@@ -192,6 +197,10 @@ MUTANTS += [
      "old": "@njit(cache=True, locals={\"temp\": types.f8})\ndef downsample_2d_mean_flat(", "new": "@njit(cache=True, fastmath=True, locals={\"temp\": types.f8})\ndef downsample_2d_mean_flat("},
     {"id": "c14-parallel-twin-fastmath", "file": KF, "expect": "C14.R1",
      "old": "    downsample_1d_mean.py_func,\n    parallel=True,\n", "new": "    downsample_1d_mean.py_func,\n    parallel=True,\n    fastmath=True,\n"},
+]
+MUTANTS += [
+    {"id": "c14-fast-filter-shortcut-on-window", "file": "sigpyproc/core/stats.py", "expect": "C14.R2",
+     "old": "    ds_factor = int(max(1, window / min_points))\n    if ds_factor == 1:\n        return running_filter(array, window, method)", "new": "    if window <= min_points:\n        return running_filter(array, window, method)\n    ds_factor = int(max(1, window / min_points))"},
 ]
 TWINS = [
     {"id": "c14-twin-running-inline", "file": SF,
